@@ -32,24 +32,44 @@ def _doc_oracle(args):
 
 # ---- edit pairs on trees ----
 def unique_provisions(el):
-    """(path, element) of identifiable elements whose ancestor path is uniquely numbered: every identified element on the
-    path has a num that cleans to something non-empty and no sibling (same parent, same tag) with the same cleaned num"""
+    """paths of identifiable elements whose ancestor path is uniquely numbered: every identified element on the path has a num
+    that cleans to something non-empty and no other element of the same tag with the same cleaned num in the same id scope.
+    The id scope of an element is the prefix it is handed: its nearest identified ancestor plus the transparent containers
+    (intro, wrapUp, ...) in between - exempt elements (content, a stray akomaNtoso, inline formatting) do not open a scope, so
+    elements under different exempt parents can still clash."""
     G = eidlib.tables()
-    out = []
     def ident(t): return t not in G.id_exempt and t not in G.id_exempt_but_pass_to_children
-    def walk(e, path, ok):
+    groups = {}
+    def collect(e, scope):
         if eidlib.local(e) == 'meta': return
         for i, k in enumerate(e):
             if not isinstance(k.tag, str): continue
             t = eidlib.local(k)
-            ok2 = ok
+            if ident(t):
+                key = (scope, t, eidlib.clean_num_ref(eidlib.num_text(k)))
+                groups[key] = groups.get(key, 0) + 1
+                collect(k, scope + (('id', id(k)),))
+            elif t in G.id_exempt_but_pass_to_children:
+                collect(k, scope + (('pass', t),))
+            else:
+                collect(k, scope)
+    collect(el, ())
+    out = []
+    def walk(e, path, ok, scope):
+        if eidlib.local(e) == 'meta': return
+        for i, k in enumerate(e):
+            if not isinstance(k.tag, str): continue
+            t = eidlib.local(k)
             if ident(t):
                 n = eidlib.clean_num_ref(eidlib.num_text(k))
-                sib = [s for s in e if isinstance(s.tag, str) and eidlib.local(s) == t and eidlib.clean_num_ref(eidlib.num_text(s)) == n]
-                ok2 = ok and bool(n) and len(sib) == 1
+                ok2 = ok and bool(n) and groups.get((scope, t, n), 0) == 1
                 if ok2: out.append(path + (i,))
-            walk(k, path + (i,), ok2)
-    walk(el, (), True)
+                walk(k, path + (i,), ok2, scope + (('id', id(k)),))
+            elif t in G.id_exempt_but_pass_to_children:
+                walk(k, path + (i,), ok, scope + (('pass', t),))
+            else:
+                walk(k, path + (i,), ok, scope)
+    walk(el, (), True, ())
     return out
 
 def at(el, path):
